@@ -168,6 +168,9 @@ def configs(tier):
         for sp in extra_networks(n0, k1, k2):
             for sim in ('ssa', 'volume', 'delay'):
                 out.append(dict(spec=sp, sim=sim, safe=True, ma_only=False, bound=2))
+                if sim != 'volume':
+                    # the same network reached through edits with rejected create_reaction calls in between
+                    out.append(dict(spec=sp, sim=sim, safe=True, ma_only=False, bound=1, edited=True))
     # seven species / eight channels and ten channels (small counts, so that the path search stays bounded)
     for sp in big_networks():
         if len(sp['reactions']) >= 8:
@@ -192,7 +195,7 @@ def absorbed(sp, cfg, rows, V):
 
 def run_config(c, cfg):
     sp = cfg['spec']
-    impl = e1.Impl(sp, cfg['safe'])
+    impl = e1.Impl(sp, cfg['safe'], edited=cfg.get('edited', False))
     sim = cfg['sim']
     V = 2.0
     has_delay = any(r.get('delay') for r in sp['reactions'])
@@ -280,7 +283,7 @@ def run_config(c, cfg):
         judge(list(script), 'lattice')
         c.count('transitions', depth)
     c.count('states', len(states))
-    c.nontrivial((sp['name'], sim, cfg['safe'], str(sp['x0'])))
+    c.nontrivial((sp['name'], sim, cfg['safe'], str(sp['x0']), bool(cfg.get('edited'))))
 
 
 def run(ctx):
